@@ -451,6 +451,23 @@ func rulesC18(c *Ctx) {
 			})
 		})
 		c.Check(okUnsub, "subscriptionsListen:deferred-unsubscribe", sl, nil, "each per-URI subscription made by a listen is undone by a deferred unsubscribe for the same URI")
+		// unsubscribe removes the requesting session, and only it: the delete is keyed by req.Session and guarded by nothing
+		// but the existence of the URI's entry (a shortcut for "last subscriber" that skips the delete drops somebody else's
+		// subscription when the requester was not subscribed)
+		uf := c.Fn(pM, "Server", "unsubscribe")
+		ug := uf.Graph()
+		rsF := c.Field(pM, "Server", "resourceSubscriptions")
+		nDel := 0
+		for _, call := range uf.AllCalls(uf.Body, false) {
+			if uf.BuiltinName(call) != "delete" || len(call.Args) != 2 || uf.IsField(call.Args[0], rsF) {
+				continue
+			}
+			nDel++
+			okKey := strings.HasSuffix(uf.FieldPath(call.Args[1]), ".Session")
+			nl, what := ug.semanticLeaves(ug.VertexOf(call))
+			c.Check(okKey && nl == 1, "unsubscribe:removes-the-requester-unconditionally", uf, call, "delete(sessionsOfURI, req.Session) under the map-lookup ok alone (%d tests: %s)", nl, what)
+		}
+		c.Pin("unsubscribe per-session deletes", nDel, 1)
 		okDel := false
 		for _, v := range g.Vertices(func(n ast.Node) bool { _, ok := n.(*ast.DeferStmt); return ok }) {
 			l := sl.LitOfDefer(g.Node(v).(*ast.DeferStmt))
